@@ -26,6 +26,11 @@ def replay_one(task):
     r = outcome_of(lambda: cls.check_schema(S))
     if r[0] != "ok":
         return [("not_accepted", None, r[1:])]      # outside C01's quantifier (accept/reject itself is C11's claim)
+    # the very same schema object has just been used by the validator class of ANOTHER draft (a schema belongs to no
+    # class: what a keyword means is decided by the class asked, every time)
+    other = _cls()[{3: 7, 4: 6, 6: 4, 7: 3}[d]]
+    for I0 in (_INST[0], _INST[len(_INST) // 2], _INST[-1]):
+        outcome_of(lambda: other(S).is_valid(I0))
     v = cls(S)
     for i, want in enumerate(bits):
         if want == 2:
